@@ -27,7 +27,12 @@ func main() {
 				var wg sync.WaitGroup
 				for i := 0; i < 4; i++ {
 					wg.Add(1)
-					go func() { defer wg.Done(); for j := 0; j < 100000; j++ { m[j] = j } }()
+					go func() {
+						defer wg.Done()
+						for j := 0; j < 100000; j++ {
+							m[j] = j
+						}
+					}()
 				}
 				wg.Wait()
 			}
